@@ -5,6 +5,7 @@ From Coq Require Import List Arith NArith ZArith Bool.
 From PV Require Import Base.Bytes Base.Outcome Base.KV Compkey.Model Aol.Model Aol.Query Bank.Model Did.Model Pnft.Model Chain.Model Keystore.Load Driver.Tok.
 From PV Require Generated.GenNft.
 From PV Require Pagination.Model Pnft.Query.
+From PV Require Sign.Model.
 Import ListNotations.
 
 Record pending := {
@@ -715,6 +716,26 @@ Definition chain_cmd (st : dstate) (cmd : tok) (args : list tok) : option (dstat
         let '(c', r) := deliver_tx (env_of st) (d_chain st) t in
         Some (upd_tx (upd_chain st c') None, [result_line r; delta_line st (c_bank (d_chain st)) (c_bank c')])
     | None => Some (st, bad)
+    end
+  else if tok_is cmd "ENDSIGN" then
+    (* C14: the sign bytes of the pending transaction; nothing is executed *)
+    match d_tx st, args with
+    | Some p, [mode; chain; accnum; sq; memo; gas; authinfo; pkany] =>
+        match bytes_of_tok chain, parse_dec accnum, parse_dec sq, bytes_of_tok memo with
+        | Some chain', Some accnum', Some sq', Some memo' =>
+            match parse_dec gas, bytes_of_tok authinfo, bytes_of_tok pkany,
+                  map_opt (fun m => match m with MBase bm => Some bm | MExec _ _ => None end) (rev (p_msgs p)) with
+            | Some gas', Some authinfo', Some pkany', Some msgs =>
+                Some (upd_tx st None,
+                      [match Sign.Model.sign_bytes mode chain' accnum' sq' memo' gas' (p_fee p) authinfo' pkany' msgs with
+                       | Some bz => b "S " ++ to_hex bz
+                       | None => b "S err"
+                       end])
+            | _, _, _, _ => Some (upd_tx st None, [b "S err"])
+            end
+        | _, _, _, _ => Some (st, bad)
+        end
+    | _, _ => Some (st, bad)
     end
   else if tok_is cmd "ENDBLOCK" then
     let c := d_chain st in
